@@ -112,6 +112,14 @@ pub mod fasta {
             assert(shl(lfs(w, i, j), a) =~= Seq::<int>::empty());
         }
     }
+    /// the number of LFs between two offsets is the length of the list
+    pub proof fn lemma_count_lfs(f: Seq<u8>, i: int, j: int)
+        requires 0 <= i <= j <= f.len()
+        ensures count_lf(f, j) - count_lf(f, i) == lfs(f, i, j).len()
+        decreases j - i
+    {
+        if j > i { lemma_count_lfs(f, i, j - 1); }
+    }
     /// appending bytes to b keeps what has been scanned
     pub proof fn lemma_partial_prefix(b: Seq<u8>, b2: Seq<u8>, start: int, l: Seq<int>, e: int)
         requires partial_l(b, start, l, e), b.len() <= b2.len(), b2.subrange(0, b.len() as int) == b
@@ -397,31 +405,31 @@ pub mod fasta {
 //@fn fasta::Reader::first_byte ret=r tags=C01,C03,C05,C06,C14,C17 r12=fill_buf
 //@spec
         requires
-            old(self).wf0(), old(self).buf_reader.cap() >= 2, old(self).base() == 0,
+            old(self).wf0(), old(self).buf_reader.cap() >= 2, old(self).base() == 0, old(self).position.byte == 0,
         ensures
             [C06,C14|fasta.first_byte.frame] final(self).wf0() && final(self).f() == old(self).f() && final(self).buf_policy == old(self).buf_policy
-                && final(self).buf_reader.cap() == old(self).buf_reader.cap() && final(self).position == old(self).position
-                && final(self).state == old(self).state && final(self).buf_pos == old(self).buf_pos && final(self).search_pos == old(self).search_pos,
+                && final(self).buf_reader.cap() == old(self).buf_reader.cap() && final(self).position.line == old(self).position.line
+                && final(self).state == old(self).state && final(self).buf_pos == old(self).buf_pos && final(self).search_pos == old(self).search_pos
+                && final(self).base() <= final(self).f().len(),
+            [C05,C06|fasta.first_byte.byte_position_follows_buffer] final(self).position.byte == final(self).base(),
             [C01,C03,C05,C17|fasta.first_byte.found] r matches Ok(Some(t)) ==> final(self).buf_reader.errs() == old(self).buf_reader.errs()
-                && t.2 < final(self).b().len() && final(self).b()[t.2 as int] == t.3 && final(self).filled() && t.1 == final(self).base()
-                && (old(self).fresh() ==> final(self).base() + t.2 == first_nonblank(final(self).f(), 0)
-                        && t.0 == true_line(final(self).f(), final(self).base() + t.2)),
+                && t.1 < final(self).b().len() && final(self).b()[t.1 as int] == t.2 && final(self).filled()
+                && final(self).base() + t.1 == first_nonblank(final(self).f(), 0)
+                && t.0 == true_line(final(self).f(), final(self).base() + t.1),
             [C01|fasta.first_byte.empty] r matches Ok(None) ==> final(self).buf_reader.errs() == old(self).buf_reader.errs()
                 && (old(self).fresh() ==> first_nonblank(final(self).f(), 0) == final(self).f().len()),
             [C14|fasta.first_byte.err] r matches Err(e) ==> (e matches Error::Io(x) && final(self).buf_reader.errs() == old(self).buf_reader.errs().push(x)),
 //@loop 0 kw=while
             invariant
                 [C06,C14|fasta.first_byte.outer.frame] self.wf0() && self.f() == old(self).f() && self.buf_policy == old(self).buf_policy
-                    && self.buf_reader.cap() == old(self).buf_reader.cap() && self.position == old(self).position
+                    && self.buf_reader.cap() == old(self).buf_reader.cap() && self.position.line == old(self).position.line
                     && self.state == old(self).state && self.buf_pos == old(self).buf_pos && self.search_pos == old(self).search_pos
                     && self.buf_reader.errs() == old(self).buf_reader.errs() && self.buf_reader.cap() >= 2
-                    && consumed == self.base() && line_num <= self.base() && (self.b().len() > 0 ==> self.base() + self.b().len() <= self.f().len()),
-                [C01,C03,C05,C17|fasta.first_byte.outer.skipped_blank_lines] old(self).fresh() ==> {
-                    &&& self.base() <= self.f().len()
-                    &&& first_nonblank(self.f(), 0) == first_nonblank(self.f(), self.base())
-                    &&& line_num == count_lf(self.f(), self.base())
-                    &&& self.b().len() <= 1 && blank(self.b()) && nl(self.b(), 0) == self.b().len()
-                },
+                    && self.position.byte == self.base() && line_num <= self.base() && (self.b().len() > 0 ==> self.base() + self.b().len() <= self.f().len()),
+                [C01,C03,C05,C17|fasta.first_byte.outer.skipped_blank_lines] self.base() <= self.f().len()
+                    && first_nonblank(self.f(), 0) == first_nonblank(self.f(), self.base())
+                    && line_num == count_lf(self.f(), self.base()),
+                [C01|fasta.first_byte.outer.leftover_is_blank] old(self).fresh() ==> self.b().len() <= 1 && blank(self.b()) && nl(self.b(), 0) == self.b().len(),
             decreases
                 (if self.base() + self.b().len() <= self.f().len() { self.f().len() - self.base() - self.b().len() } else { 0 }),
 //@closure 0 params="b: &u8" ret="(r: bool)"
@@ -429,16 +437,16 @@ pub mod fasta {
 //@loop 1 r8=vx_sp
             invariant
                 [C06,C14|fasta.first_byte.inner.frame] self.wf0() && self.f() == old(self).f() && self.buf_policy == old(self).buf_policy
-                    && self.buf_reader.cap() == old(self).buf_reader.cap() && self.position == old(self).position
+                    && self.buf_reader.cap() == old(self).buf_reader.cap() && self.position.line == old(self).position.line
                     && self.state == old(self).state && self.buf_pos == old(self).buf_pos && self.search_pos == old(self).search_pos
                     && self.buf_reader.errs() == old(self).buf_reader.errs() && self.buf_reader.cap() >= 2 && self.filled()
-                    && self.b().len() > 0 && consumed == self.base() && self.base() + self.b().len() <= self.f().len(),
+                    && self.b().len() > 0 && self.position.byte == self.base() && self.base() + self.b().len() <= self.f().len(),
                 !split_done(&vx_sp) ==> line_num <= self.base() + pos,
                 split_done(&vx_sp) ==> line_num <= self.base() + self.b().len() - last_line_len + 1 && 1 <= line_num,
                 decides_eq(split_pred(&vx_sp), 10u8),
                 !split_done(&vx_sp) ==> pos <= self.b().len() && split_rest(&vx_sp) == self.b().subrange(pos as int, self.b().len() as int),
                 split_done(&vx_sp) ==> pos == self.b().len() + 1 && last_line_len <= self.b().len(),
-                [C01,C03,C05,C17|fasta.first_byte.inner.skipped_blank_lines] old(self).fresh() ==> {
+                [C01,C03,C05,C17|fasta.first_byte.inner.skipped_blank_lines] ({
                     &&& (!split_done(&vx_sp) ==> first_nonblank(self.f(), 0) == first_nonblank(self.f(), self.base() + pos)
                             && line_num == count_lf(self.f(), self.base() + pos))
                     &&& (split_done(&vx_sp) ==> ({
@@ -447,11 +455,11 @@ pub mod fasta {
                             &&& line_num == count_lf(self.f(), self.base() + lp) + 1
                             &&& nl(self.b(), lp) == self.b().len() && blank(self.b().subrange(lp, self.b().len() as int))
                         }))
-                },
+                }),
             ensures
                 pos == self.b().len() + 1 && last_line_len <= self.b().len() && 1 <= line_num
                     && line_num <= self.base() + self.b().len() - last_line_len + 1 && self.base() + self.b().len() <= self.f().len(),
-                [C01,C03,C05,C17|fasta.first_byte.inner.exit] old(self).fresh() ==> ({
+                [C01,C03,C05,C17|fasta.first_byte.inner.exit] ({
                             let lp = self.b().len() - last_line_len;
                             &&& first_nonblank(self.f(), 0) == first_nonblank(self.f(), self.base() + lp)
                             &&& line_num == count_lf(self.f(), self.base() + lp) + 1
@@ -495,7 +503,7 @@ pub mod fasta {
             proof {
                 let bb2 = self.b();
                 lemma_nl_bounds(bb2, 0);
-                if old(self).fresh() && bb2.len() > 0 { assert(bb2[0] != 10u8); }
+                if bb2.len() > 0 { assert(bb2[0] != 10u8); }
             }
 //@at tail expect="Ok\(None\)"
         proof {
@@ -515,24 +523,26 @@ pub mod fasta {
 //@fn fasta::Reader::init ret=r tags=C01,C03,C05,C06,C14,C17
 //@spec
         requires
-            old(self).wf0(), old(self).buf_reader.cap() >= 2, old(self).state == State::New, old(self).base() == 0,
+            old(self).wf0(), old(self).buf_reader.cap() >= 2, old(self).state == State::New, old(self).base() == 0, old(self).position.byte == 0, old(self).buf_pos.start == 0,
         ensures
             [C06,C14|fasta.init.frame] final(self).wf0() && final(self).f() == old(self).f() && final(self).buf_policy == old(self).buf_policy
-                && final(self).buf_reader.cap() == old(self).buf_reader.cap(),
+                && final(self).buf_reader.cap() == old(self).buf_reader.cap() && final(self).base() <= final(self).f().len()
+                && final(self).position.byte == final(self).base() + final(self).buf_pos.start
+                && (r matches Ok(true) || (final(self).buf_pos == old(self).buf_pos && final(self).search_pos == old(self).search_pos)),
             [C01,C03,C05|fasta.init.first_record] r matches Ok(true) ==> final(self).buf_reader.errs() == old(self).buf_reader.errs()
                 && final(self).state == State::New && final(self).filled()
                 && final(self).buf_pos.start < final(self).b().len() && final(self).b()[final(self).buf_pos.start as int] == 62u8
                 && final(self).search_pos == final(self).buf_pos.start + 1 && final(self).buf_pos.seq_pos@ == old(self).buf_pos.seq_pos@
-                && (old(self).fresh() ==> final(self).base() + final(self).buf_pos.start == first_nonblank(final(self).f(), 0)
-                        && final(self).position.byte == first_nonblank(final(self).f(), 0)
-                        && final(self).position.line == true_line(final(self).f(), first_nonblank(final(self).f(), 0))),
+                && final(self).base() + final(self).buf_pos.start == first_nonblank(final(self).f(), 0)
+                && final(self).position.byte == first_nonblank(final(self).f(), 0)
+                && final(self).position.line == true_line(final(self).f(), first_nonblank(final(self).f(), 0)),
             [C01|fasta.init.empty] r matches Ok(false) ==> final(self).buf_reader.errs() == old(self).buf_reader.errs() && final(self).state == State::Finished
                 && (old(self).fresh() ==> first_nonblank(final(self).f(), 0) == final(self).f().len()),
             [C01,C17,C14|fasta.init.err] r matches Err(e) ==> match e {
-                Error::Io(x) => final(self).buf_reader.errs() == old(self).buf_reader.errs().push(x) && final(self).state == State::New,
+                Error::Io(x) => final(self).buf_reader.errs() == old(self).buf_reader.errs().push(x) && final(self).state == State::Finished,
                 Error::InvalidStart { line, found } => final(self).buf_reader.errs() == old(self).buf_reader.errs() && final(self).state == State::Finished
-                    && (old(self).fresh() ==> ({ let s0 = first_nonblank(final(self).f(), 0);
-                            s0 < final(self).f().len() && final(self).f()[s0] != 62u8 && found == final(self).f()[s0] && line == true_line(final(self).f(), s0) })),
+                    && ({ let s0 = first_nonblank(final(self).f(), 0);
+                            s0 < final(self).f().len() && final(self).f()[s0] != 62u8 && found == final(self).f()[s0] && line == true_line(final(self).f(), s0) }),
                 _ => false,
             },
 //@end
@@ -548,7 +558,7 @@ pub mod fasta {
         &&& self.buf_pos.start <= self.search_pos <= self.b().len()
         &&& match self.state {
                 State::New => self.base() == 0 && self.buf_pos.start == 0 && self.search_pos == 0 && self.buf_pos.seq_pos@.len() == 0
-                              && (self.clean() ==> self.b().len() == 0),
+                              && self.b().len() == 0 && self.position.byte == 0,
                 State::Parsing => self.filled() && complete(self.b(), self.buf_pos.start as int, self.buf_pos.seq_pos@, self.search_pos as int)
                               && self.b()[self.buf_pos.start as int] == 62u8,
                 State::Incomplete => partial(self.b(), self.buf_pos.start as int, self.buf_pos.seq_pos@, self.search_pos as int)
@@ -560,7 +570,8 @@ pub mod fasta {
             }
         &&& (self.state != State::Finished && self.state != State::New ==> self.coords())
     }
-    spec fn poisoned(&self) -> bool { self.state == State::New && self.b().len() > 0 }
+    /// cannot happen for FASTA any more (errors of the first fill are final); kept so that both formats read alike
+    spec fn poisoned(&self) -> bool { false }
     /// file offset of the next unread record
     spec fn cursor(&self) -> int {
         match self.state {
@@ -637,6 +648,103 @@ pub mod fasta {
             proof {
                 lemma_partial_prefix(b_before, self.b(), self.buf_pos.start as int, spv(self.buf_pos.seq_pos@), self.search_pos as int);
             }
+//@end
+
+//@fn fasta::Reader::next ret=r tags=C01,C03,C05,C06,C14,C17
+//@spec
+        requires
+            old(self).wf(),
+        ensures
+            [C06|fasta.next.wf] final(self).wf() && final(self).f() == old(self).f(),
+            [C01,C06|fasta.next.end] r is None ==> final(self).buf_reader.errs() == old(self).buf_reader.errs() && final(self).state == State::Finished
+                && (old(self).state == State::Finished || (old(self).state == State::New
+                    && (old(self).fresh() ==> first_nonblank(old(self).f(), 0) == old(self).f().len()))),
+            [C01,C03,C06,C12|fasta.next.record] r matches Some(Ok(rec)) ==> final(self).buf_reader.errs() == old(self).buf_reader.errs()
+                && old(self).state != State::Finished
+                && rec.buffer@ == final(self).b() && rec.buf_pos.same_as(&final(self).buf_pos) && rec.buf_pos.rwf(rec.buffer@)
+                && (final(self).state == State::Parsing || final(self).state == State::Finished)
+                && (!old(self).poisoned() && old(self).clean() ==> ({
+                    let (ff, p) = (old(self).f(), old(self).cursor());
+                    let l = shl(spv(final(self).buf_pos.seq_pos@), final(self).base());
+                    let e = final(self).base() + final(self).search_pos;
+                    &&& final(self).gpos() == p && 0 <= p < ff.len() && ff[p] == 62u8
+                    &&& (final(self).state == State::Parsing ==> complete_l(ff, p, l, e))
+                    &&& (final(self).state == State::Finished ==> eofrec_l(ff, p, l, e))
+                })),
+            [C05,C03|fasta.next.position] r matches Some(Ok(rec)) && !old(self).poisoned() && old(self).clean() ==>
+                final(self).position.byte == old(self).cursor() && final(self).position.line == true_line(old(self).f(), old(self).cursor()),
+            [C01,C14,C17,C06|fasta.next.error] r matches Some(Err(e)) ==> match e {
+                    Error::Io(x) => final(self).buf_reader.errs() == old(self).buf_reader.errs().push(x),
+                    Error::BufferLimit => final(self).buf_reader.errs() == old(self).buf_reader.errs() && final(self).state == State::Incomplete,
+                    Error::InvalidStart { line, found } => final(self).buf_reader.errs() == old(self).buf_reader.errs() && final(self).state == State::Finished
+                        && old(self).state == State::New
+                        && ({ let s0 = first_nonblank(old(self).f(), 0);
+                            s0 < old(self).f().len() && old(self).f()[s0] != 62u8 && found == old(self).f()[s0] && line == true_line(old(self).f(), s0) }),
+                },
+//@body_start
+        proof {
+            lemma_count_lf_mono(self.f(), 0, self.position.byte as int);
+            if self.state == State::Parsing {
+                let (ff, a, bb, st, e) = (self.f(), self.base(), self.b(), self.buf_pos.start as int, self.search_pos as int);
+                lemma_lfs_bounds(bb, st, e);
+                lemma_lfs_window(ff, a, bb, st, e);
+                lemma_count_lfs(ff, a + st, a + e);
+                lemma_count_lf_mono(ff, 0, a + e);
+                assert(spv(self.buf_pos.seq_pos@).len() == self.buf_pos.seq_pos@.len());
+            }
+        }
+//@at depth=1 kw=if nth=0 expect="if self\.state != State::Incomplete"
+        proof {
+            assert(spv(self.buf_pos.seq_pos@) =~= Seq::<int>::empty() || self.state == State::Incomplete);
+            if self.state != State::Incomplete {
+                assert(lfs(self.b(), self.buf_pos.start as int, self.buf_pos.start as int) =~= Seq::<int>::empty());
+            }
+        }
+//@at tail expect="Some\(Ok\("
+        proof {
+            let (ff, a, bb, st, e) = (self.f(), self.base(), self.b(), self.buf_pos.start as int, self.search_pos as int);
+            lemma_rec_lift(ff, a, bb, st, spv(self.buf_pos.seq_pos@), e);
+            self.buf_pos.lemma_rwf(bb, e);
+        }
+//@end
+
+//@fn fasta::Reader::position ret=r tags=C05
+//@spec
+        ensures
+            [C05|fasta.position.none_before_first_record] self.buf_pos.seq_pos@.len() == 0 ==> r is None,
+            [C05|fasta.position.is_field] self.buf_pos.seq_pos@.len() > 0 ==> r == Some(&self.position),
+//@end
+}
+
+//@impl_open fasta::BufferPosition::is_new
+    /// the offsets describe one complete record of b: '>' at start, every LF up to the record's end, the end itself
+    spec fn rwf(&self, b: Seq<u8>) -> bool {
+        let sp = spv(self.seq_pos@);
+        sp.len() >= 1 && self.start < sp.last() <= b.len() && b[self.start as int] == 62u8
+            && sp == lfs(b, self.start as int, sp.last()).push(sp.last())
+    }
+    proof fn lemma_rwf(&self, b: Seq<u8>, e: int)
+        requires 0 <= self.start < b.len(), b[self.start as int] == 62u8,
+                 complete(b, self.start as int, self.seq_pos@, e) || eofrec(b, self.start as int, self.seq_pos@, e)
+        ensures self.rwf(b)
+    {
+        let st = self.start as int;
+        if complete(b, st, self.seq_pos@, e) {
+            assert(lfs(b, st, e) == lfs(b, st, e - 1).push(e - 1));
+            lemma_lfs_bounds(b, st, e - 1);
+        } else {
+            lemma_lfs_bounds(b, st, e);
+        }
+    }
+//@fn fasta::BufferPosition::is_new ret=r tags=C05
+//@spec
+        ensures
+            [C05|fasta.bufpos.is_new] r == (self.seq_pos@.len() == 0),
+//@end
+//@fn fasta::BufferPosition::reset tags=C05
+//@spec
+        ensures
+            [C05|fasta.bufpos.reset] final(self).start == start && final(self).seq_pos@.len() == 0,
 //@end
 }
 
